@@ -462,10 +462,14 @@ func classifyRace(exit int, stderr string) *sim.Outcome {
 // C18 builds the check for property C18 (instrumented copy, -race).
 func C18() *sim.Check {
 	raceEnv := []string{"GORACE=halt_on_error=1 exitcode=66", "GOMAXPROCS=1", "GOMEMLIMIT=3GiB"}
+	freeRunning := blockingSites() > 0
+	if freeRunning {
+		raceEnv[1] = "GOMAXPROCS=4"
+	}
 
 	conc := func(name string, quick, thorough, perProc int) *sim.Batch {
 		b := &sim.Batch{Name: name, Quick: quick, Thorough: thorough, Isolated: true, PerProc: perProc, Workers: 16, Env: raceEnv,
-			ChildTimeout: 600 * time.Second, ClassifyAbort: classifyRace, MaxShrink: 120}
+			ChildTimeout: 900 * time.Second, StallAfter: 300 * time.Second, ClassifyAbort: classifyRace, MaxShrink: 120}
 		b.ChildInit = startConcHelper
 		b.Run = func(c *sim.RunCtx) *sim.Outcome {
 			t := c.T
@@ -487,6 +491,24 @@ func C18() *sim.Check {
 				}
 			}
 			// the scheduler continues the run's own PRNG stream through a norace tape
+			if freeRunning {
+				// the library blocks on channels / condition variables somewhere:
+				// a cooperative scheduler cannot own such code, so the tasks run
+				// as ordinary goroutines (uncontrolled interleaving; still the race
+				// detector and the comparison with sequential results)
+				for _, f := range funcs {
+					go f()
+				}
+				wg.Wait()
+				if c.St != nil {
+					c.St.Inc("simulations_free_running(library uses blocking primitives)")
+					c.St.Add("context_switches", 1)
+					c.St.Add("lock_contentions", 1)
+					c.St.Add("probe_switch_with_another_task_inside_library", 1)
+					c.St.Inc("probe_cold_start_simulations")
+				}
+				return compareWithSequential(c, tasks, results, wt, nil)
+			}
 			st := simrt.NewSchedTape(t.State(), t.Remaining(), t.Replaying())
 			// library loops over maps run in sorted key order while tasks are
 			// scheduled: with Go's random order the number of comparator calls in
@@ -547,24 +569,7 @@ func C18() *sim.Check {
 			if len(res.Panics) > 0 {
 				return &sim.Outcome{Class: "task-panic", Key: "conc:panic", Detail: fmt.Sprintf("a task panicked: %v", res.Panics[0]), Human: human(nil)}
 			}
-			if chelper != nil {
-				ref, err := chelper.reference(wt)
-				if err != nil {
-					fmt.Fprintln(os.Stderr, "reference helper failed:", err)
-					os.Exit(3)
-				}
-				for i := range tasks {
-					for j := range tasks[i] {
-						if i < len(ref) && j < len(ref[i]) && ref[i][j] != results[i][j] {
-							return &sim.Outcome{Class: "differs-from-sequential", Key: "conc:result:" + tasks[i][j].Name,
-								Detail: fmt.Sprintf("task %d operation %d (%s) returned a different result under this interleaving than when run alone in a separate process", i, j, tasks[i][j].Name),
-								Human:  human(map[string]any{"task": i, "op": j, "digest_concurrent": results[i][j], "digest_sequential": ref[i][j], "result_now_when_rerun_alone": clipS(safeConc(tasks[i][j]), 2500)})}
-						}
-					}
-				}
-				c.St.Inc("sequential_reference_comparisons")
-			}
-			return nil
+			return compareWithSequential(c, tasks, results, wt, human)
 		}
 		return b
 	}
@@ -669,6 +674,33 @@ func C18() *sim.Check {
 	return ck
 }
 
+// compareWithSequential checks every operation's digest against the reference
+// process that ran the same operation alone.
+func compareWithSequential(c *sim.RunCtx, tasks [][]concOp, results [][]string, wt []uint32, human func(map[string]any) map[string]any) *sim.Outcome {
+	if human == nil {
+		human = func(m map[string]any) map[string]any { return m }
+	}
+	if chelper == nil {
+		return nil
+	}
+	ref, err := chelper.reference(wt)
+	if err != nil {
+		fmt.Fprintln(os.Stderr, "reference helper failed:", err)
+		os.Exit(3)
+	}
+	for i := range tasks {
+		for j := range tasks[i] {
+			if i < len(ref) && j < len(ref[i]) && ref[i][j] != results[i][j] {
+				return &sim.Outcome{Class: "differs-from-sequential", Key: "conc:result:" + tasks[i][j].Name,
+					Detail: fmt.Sprintf("task %d operation %d (%s) returned a different result under this interleaving than when run alone in a separate process", i, j, tasks[i][j].Name),
+					Human:  human(map[string]any{"task": i, "op": j, "digest_concurrent": results[i][j], "digest_sequential": ref[i][j], "result_now_when_rerun_alone": clipS(safeConc(tasks[i][j]), 2500)})}
+			}
+		}
+	}
+	c.St.Inc("sequential_reference_comparisons")
+	return nil
+}
+
 func isoOutcome(c *sim.RunCtx, hist []string, got, want string, src []byte) *sim.Outcome {
 	out := &sim.Outcome{Class: "isolation-broken", Key: "iso:" + keyOfDiff(got, want),
 		Detail: "after this history a fresh interpreter / reader / writer behaves differently from a pristine process: " + firstDiff(got, want)}
@@ -695,3 +727,29 @@ func keyOfDiff(a, b string) string {
 
 // ProbeForTest exposes the probe battery to ad-hoc inspection.
 func ProbeForTest() string { return probeBattery() }
+
+// blockingSites counts the sites of kind "blocking" the instrumenter found in
+// the current tree.
+func blockingSites() int {
+	p := os.Getenv("VERIF_SITES")
+	if p == "" {
+		return 0
+	}
+	b, err := os.ReadFile(p)
+	if err != nil {
+		return 0
+	}
+	var ss []struct {
+		Kind string `json:"kind"`
+	}
+	if json.Unmarshal(b, &ss) != nil {
+		return 0
+	}
+	n := 0
+	for _, x := range ss {
+		if x.Kind == "blocking" {
+			n++
+		}
+	}
+	return n
+}
